@@ -351,3 +351,43 @@ def register(reg, stubs, world):
                      modifies=LOAD_MODS, allocates=True, props=('C03', 'C07', 'C08', 'C14'),
                      doc='loads, normalises credentials, gates on scope, evaluates the governing check once, then '
                          'returns the decision or raises the requested exception'))
+
+    # ------------------------------------------------------------------ set_rules (C09, C20)
+    def setr_pre(cx):
+        eng, st = cx.eng, cx.st0
+        s, r = cx['self'], cx['rules']
+        R = z3.Select(st.H('rules'), V.ref(s))
+        return [('enforcer-owns-a-rule-store', z3.And(V.is_obj(s), V.is_obj(R), clsof(V.ref(R)) == eng.cid('Rules'),
+                                                     V.is_dict(z3.Select(st.H('$val'), V.ref(R))))),
+                ('a-dict-object-holds-a-mapping', z3.Implies(z3.And(V.is_obj(r), eng.isinst_ref(V.ref(r), 'dict')),
+                                                             V.is_dict(z3.Select(st.H('$val'), V.ref(r))))),
+                ('flags-are-booleans', z3.And(V.is_bool(cx['overwrite']), V.is_bool(cx['use_conf'])))]
+
+    def setr_post(cx, out):
+        eng, st, s1 = cx.eng, cx.st0, out.st
+        s, r, ow = cx['self'], cx['rules'], cx['overwrite']
+        isd = eng.isinst(r, 'dict')
+        if out.kind != 'ret':
+            return [('TypeError-only-for-a-non-dict', z3.And(out.exc.cname == 'TypeError', z3.Not(isd)))]
+        R0, R1 = eng.get(st, s, 'rules'), eng.get(s1, s, 'rules')
+        src = eng.map_of(st, r)
+        k = z3.String('sr!k')
+        newm = V.m(eng.val(s1, R1))
+        return [('only-for-a-dict', isd),
+                ('records-the-flags', z3.And(eng.get(s1, s, 'use_conf') == cx['use_conf'], eng.get(s1, s, '_need_check_rule') == TRUE)),
+                ('overwrite-publishes-a-fresh-complete-store', z3.Implies(truthy(ow), z3.And(
+                    V.is_obj(R1), clsof(V.ref(R1)) == eng.cid('Rules'), V.ref(R1) >= st.ap,
+                    qforall([k], z3.Select(newm, k) == z3.Select(src, k)),
+                    eng.get(s1, R1, 'default_rule') == eng.get(st, s, 'default_rule')))),
+                ('update-keeps-the-store-and-lets-new-entries-win', z3.Implies(z3.Not(truthy(ow)), z3.And(
+                    R1 == R0,
+                    qforall([k], z3.Select(newm, k) == z3.If(z3.Select(src, k) != ABSENT, z3.Select(src, k),
+                                                             z3.Select(V.m(eng.val(st, R0)), k))))))]
+
+    def setr_pub(cx):
+        return cx['self'], 'rules', truthy(cx['overwrite'])
+    reg.add(Contract('policy:Enforcer.set_rules', pre=setr_pre, post=setr_post, raises=('TypeError',),
+                     modifies=('rules', 'use_conf', '_need_check_rule', '$val'), allocates=True, publishes=setr_pub,
+                     props=('C09', 'C20'),
+                     doc='overwrite mode replaces the shared rule store by ONE assignment of a finished Rules object '
+                         '(publication obligation: no in-place write to a store other threads can read)'))
